@@ -42,7 +42,11 @@ class CanStaticSchema: public ICanSchema {
         if (!msg_name.has_value()) {
             return std::nullopt;
         }
-        auto decoded = static_schema_.DecodeJson(msg_name.value(), std::vector<std::uint8_t>{frame.data.begin(), frame.data.end()});
+        auto msg_type = GetType(msg_name.value());
+        if (!msg_type.has_value()) {
+            return std::nullopt;
+        }
+        auto decoded = static_schema_.DecodeJson(msg_type.value(), std::vector<std::uint8_t>{frame.data.begin(), frame.data.end()});
 
         if (!decoded.has_value()) {
             return std::nullopt;
@@ -52,7 +56,11 @@ class CanStaticSchema: public ICanSchema {
     }
 
     std::optional<frame_t> Encode(std::string msg_name, json j) override {
-        auto encoded = static_schema_.EncodeJson(msg_name, j);
+        auto msg_type = GetType(msg_name);
+        if (!msg_type.has_value()) {
+            return std::nullopt;
+        }
+        auto encoded = static_schema_.EncodeJson(msg_type.value(), j);
 
         if (!encoded.has_value()) {
             return std::nullopt;
@@ -88,6 +96,17 @@ class CanStaticSchema: public ICanSchema {
         {% for impl in fcp.get_matching_impls("can") %}
         if (sid == {{impl.fields.get('id')}} && bus_name_str == "{{impl.fields.get('bus', 'unkn')}}") {
             return "{{impl.name}}";
+        }
+        {% endfor %}
+
+        return std::nullopt;
+    }
+
+    // The struct a binding carries: a binding is named after its struct unless it is renamed (impl can for S as Name)
+    std::optional<std::string> GetType(std::string msg_name) {
+        {% for impl in fcp.get_matching_impls("can") %}
+        if (msg_name == "{{impl.name}}") {
+            return "{{impl.type}}";
         }
         {% endfor %}
 
